@@ -5,7 +5,7 @@ from spec.geodesic import direct_exact, ground_offset_m
 from bounded.C04 import ELLS
 
 RULES = {
-    'C05.B.inverse_exact': 'point pairs (spherical separation <= 178 deg; 1 mm .. 19 800 km; same meridian / parallel, equatorial, polar, across +-180) x 4 shipped + Earth-like random ellipsoids: following the exact geodesic from P1 with the returned distance and azimuth arrives within 2 mm of P2; reverse azimuth = exact arrival azimuth + 180 within 1e-8 deg + angle of 2 mm at the distance from the nearer pole',
+    'C05.B.inverse_exact': 'point pairs (spherical separation <= 178 deg; 1 mm .. 19 800 km; same meridian / parallel, equatorial, polar, across +-180, nearly antipodal low-latitude pairs of 172..178 deg of arc) x 4 shipped + Earth-like random ellipsoids: following the exact geodesic from P1 with the returned distance and azimuth arrives within 2 mm of P2; reverse azimuth = exact arrival azimuth + 180 within 1e-8 deg + angle of 2 mm at the distance from the nearer pole',
     'C05.B.swap_shift': 'same pairs: swapping the points / adding +14, +360, -360 deg to both longitudes changes the distance by <= 1 mm and each azimuth by no more than moves the far end by 1 mm; coincident points give zero distance',
 }
 
@@ -74,6 +74,14 @@ def work(item):
         pairs += [(0.0, 0.0, 0.0, 90.0), (0.0, 10.0, 0.0, 170.0), (10.0, 20.0, -30.0, 20.0), (45.0, -170.0, 45.0, 170.0), (90.0, 0.0, 20.0, 55.0), (-90.0, 30.0, 89.0, 100.0),
                   (10.0, 179.9, 12.0, -179.9), (-33.0, 151.0, -33.0, 151.0), (-33.0, 151.0, -33.0, 151.0 + 1e-8), (60.0, 0.0, 60.0 + 1e-8, 0.0), (0.0, 0.0, 0.5, 177.0),
                   (89.9, 10.0, 89.9, -170.0), (-37.95103342, 144.42486789, -37.65282114, 143.92649553)]
+    if item['first']:
+        pairs += [(0.0, 0.0, 1.9, 178.9), (5.0, -10.0, -4.0, 167.5), (0.3, 20.0, 0.2, -162.3), (-2.0, 100.0, 3.5, -77.4)]
+    for _ in range(max(2, item['n'] // 8)):
+        # nearly antipodal low-latitude pairs (172..178 deg of arc): the lambda iteration needs its largest number of passes here
+        la1, lo1 = rng.uniform(-6, 6), rng.uniform(-180, 180)
+        la2 = -la1 + rng.uniform(-2.5, 2.5)
+        lo2 = (lo1 + 180 - rng.choice([1, -1]) * rng.uniform(2.1, 8.0) + 180) % 360 - 180
+        pairs.append((la1, lo1, la2, lo2))
     for _ in range(item['n']):
         la1, lo1 = rng.choice([rng.uniform(-90, 90), 0.0]), rng.uniform(-180, 180)
         if rng.random() < 0.5:
